@@ -1,5 +1,7 @@
 import GBS.Props.C08
 import GBS.Props.C03
+import GBS.Lemmas.GenClosed
+import GBS.Model.Certify
 /-!
 # Progress lemmas: which errors generation can raise
 
@@ -79,5 +81,796 @@ theorem choose_progress (bds : List Desc) (b : Option Desc) (ω : Oracle) (hne :
   have h2 := probsOk_choose _ (by simpa using hne) hws
   simp only [h2, Bool.not_true, Bool.false_eq_true, if_false] at h
   exact pickFrom_benign _ _ _ e h
+
+end GBS
+
+namespace GBS
+
+/-! ## A certificate that a stochastic object can always grow and be capped -/
+
+theorem dEq.refl (x : Desc) : dEq x x := ⟨rfl, rfl, rfl, rfl, rfl⟩
+
+theorem dEq_shift (d : Desc) (off : Nat) : dEq { d with atom := d.atom + off } d := ⟨rfl, rfl, rfl, rfl, rfl⟩
+
+theorem isCompatible_dEq_left {x y : Desc} (h : dEq x y) (b : Desc) : isCompatible x b = isCompatible y b := by
+  rw [C03_symm x b, C03_symm y b]
+  exact isCompatible_congr_right b x y h.1 h.2.1 h.2.2.1
+
+theorem isCompatible_dEq_right {x y : Desc} (h : dEq x y) (b : Desc) : isCompatible b x = isCompatible b y :=
+  isCompatible_congr_right b x y h.1 h.2.1 h.2.2.1
+
+theorem compatibleIdsFrom_dEq {x y : Desc} (h : dEq x y) (l : List Desc) (n : Nat) :
+    compatibleIdsFrom (some x) n l = compatibleIdsFrom (some y) n l := by
+  induction l generalizing n with
+  | nil => rfl
+  | cons a l ih =>
+    unfold compatibleIdsFrom
+    simp only [isCompatible_dEq_left h a, ih]
+
+theorem compatibleIds_dEq {x y : Desc} (h : dEq x y) (l : List Desc) : compatibleIds l (some x) = compatibleIds l (some y) :=
+  compatibleIdsFrom_dEq h l 0
+
+theorem EntryOK_dEq {o : Stoch} {m : Mode} {R : List Desc} {x y : Desc} (h : dEq x y) (c : Nat) (hy : EntryOK o m R y c) : EntryOK o m R x c := by
+  unfold EntryOK at hy ⊢
+  cases he : o.entry c with
+  | none => simp [he] at hy
+  | some p =>
+    obtain ⟨tok, k, d⟩ := p
+    simp only [he] at hy ⊢
+    exact ⟨hy.1, hy.2.1, by rw [isCompatible_dEq_right h]; exact hy.2.2.1, hy.2.2.2.1, hy.2.2.2.2⟩
+
+theorem GrowOK_dEq {o : Stoch} {m : Mode} {R : List Desc} {x y : Desc} (h : dEq x y) (hy : GrowOK o m R y) : GrowOK o m R x := by
+  unfold GrowOK at hy ⊢
+  have ht : x.trans = y.trans := h.2.2.2.2
+  have hw : x.weight = y.weight := h.2.2.2.1
+  rw [ht]
+  cases hyt : y.trans with
+  | none =>
+    simp only [hyt] at hy ⊢
+    rw [compatibleIds_dEq h]
+    exact ⟨hy.1, hy.2.1, fun c hc => EntryOK_dEq h c (hy.2.2 c hc)⟩
+  | some l =>
+    simp only [hyt] at hy ⊢
+    rw [hw]
+    exact ⟨hy.1, hy.2.1, fun c hc hp => EntryOK_dEq h c (hy.2.2 c hc hp)⟩
+
+theorem CapOK_dEq {o : Stoch} {x y : Desc} (h : dEq x y) (hy : CapOK o y) : CapOK o x := by
+  unfold CapOK at hy ⊢
+  rw [compatibleIds_dEq h]
+  exact hy
+
+theorem InR_GrowOK {o : Stoch} {m : Mode} {R : List Desc} (hc : Cert o m R) {x : Desc} (hx : InR R x) : GrowOK o m R x := by
+  obtain ⟨y, hy, he⟩ := hx
+  exact GrowOK_dEq he (hc.2.1 y hy)
+
+theorem InR_CapOK {o : Stoch} {m : Mode} {R : List Desc} (hc : Cert o m R) (hm : m.chain = false) {x : Desc} (hx : InR R x) : CapOK o x := by
+  obtain ⟨y, hy, he⟩ := hx
+  exact CapOK_dEq he (hc.2.2 hm y hy)
+
+theorem InR_nonneg {o : Stoch} {m : Mode} {R : List Desc} (hc : Cert o m R) {x : Desc} (hx : InR R x) : 0 ≤ x.weight := by
+  obtain ⟨y, hy, he⟩ := hx
+  rw [he.2.2.2.1]; exact hc.1 y hy
+
+/-- the pick of the open descriptor to continue with (`choose_compatible_weight(bds, None)`) cannot raise -/
+theorem chooseOpen_progress {o : Stoch} {m : Mode} {R : List Desc} (hc : Cert o m R) {s : Mol} (hs : OpensIn R s) (hne : s.opens ≠ []) (ω : Oracle) :
+    OkOrBenign (choose (s.opens.map (·.d)) none ω) := by
+  apply choose_progress
+  · intro h
+    have h0 : 0 ∈ compatibleIds (s.opens.map (·.d)) none := by
+      rw [C03_filter]
+      refine ⟨?_, trivial⟩
+      simp only [List.length_map]
+      exact List.length_pos_iff.2 hne
+    rw [h] at h0
+    simp at h0
+  · intro i hi
+    obtain ⟨hlt, -⟩ := (C03_filter _ _ _).1 hi
+    simp only [List.length_map] at hlt
+    rw [List.getD_eq_getElem?_getD, List.getElem?_map, List.getElem?_eq_getElem hlt]
+    simp only [Option.map_some, Option.getD_some]
+    exact InR_nonneg hc (hs _ (List.getElem_mem hlt))
+
+
+/-- the converse of `attach_ok`: when its four conditions hold, `attach` succeeds -/
+theorem attach_succeeds {s : Mol} {i : Nat} {t : Token} {j : Nat} {od : OpenD} {d : Desc}
+    (hg : t.generable = true) (ho : s.opens[i]? = some od) (hd : t.bds[j]? = some d) (hc : isCompatible d od.d = true) :
+    ∃ s', attach s i t j = .ok s' ∧
+      s'.opens = s.opens.eraseIdx i ++ (t.opens s.natoms s.insts.length s.insts.length).eraseIdx j := by
+  unfold attach
+  simp only [hg, Bool.not_true, Bool.false_eq_true, if_false, ho, hd, hc]
+  exact ⟨_, rfl, rfl⟩
+
+/-- the descriptors a fresh copy of a token leaves open after entering it at `j` are copies of the token's other descriptors -/
+theorem fresh_erase_dEq (t : Token) (off node inst j : Nat) (od : OpenD) (h : od ∈ (t.opens off node inst).eraseIdx j) :
+    ∃ d ∈ t.bds.eraseIdx j, dEq od.d d := by
+  rw [List.mem_eraseIdx_iff_getElem?] at h
+  obtain ⟨n, hn, hget⟩ := h
+  rw [Token.opens_getElem?] at hget
+  cases hb : t.bds[n]? with
+  | none => simp [hb] at hget
+  | some d =>
+    simp only [hb, Option.map_some, Option.some.injEq] at hget
+    refine ⟨d, List.mem_eraseIdx_iff_getElem?.2 ⟨n, hn, hb⟩, ?_⟩
+    rw [← hget]
+    exact dEq_shift d off
+
+theorem fresh_erase_dEq' (t : Token) (off node inst j : Nat) (d : Desc) (h : d ∈ t.bds.eraseIdx j) :
+    ∃ od ∈ (t.opens off node inst).eraseIdx j, dEq od.d d := by
+  rw [List.mem_eraseIdx_iff_getElem?] at h
+  obtain ⟨n, hn, hget⟩ := h
+  refine ⟨{ d := { d with atom := d.atom + off }, node := node, inst := inst, k := n }, ?_, dEq_shift d off⟩
+  rw [List.mem_eraseIdx_iff_getElem?]
+  exact ⟨n, hn, by rw [Token.opens_getElem?, hget]; rfl⟩
+
+theorem getD_opens {s : Mol} {i : Nat} (hlt : i < s.opens.length) : s.opens.getD i default = s.opens[i] := by
+  rw [List.getD_eq_getElem?_getD, List.getElem?_eq_getElem hlt]; rfl
+
+/-- **one capping step cannot raise**, keeps the remaining open descriptors inside `R` and closes one of them -/
+theorem capOne_progress {o : Stoch} {m : Mode} {R : List Desc} (hc : Cert o m R) (hm : m.chain = false) {s : Mol} (hs : OpensIn R s) (hne : s.opens ≠ []) (ω : Oracle) :
+    OkOrBenign (capOne o s ω) ∧
+    ∀ s' t ω', capOne o s ω = .ok (s', t, ω') → OpensIn R s' ∧ s'.opens.length + 1 = s.opens.length := by
+  have h1 := chooseOpen_progress hc hs hne ω
+  unfold capOne
+  cases hch : choose (s.opens.map (·.d)) none ω with
+  | error e => exact ⟨fun e' he' => by injection he' with he'; subst he'; exact h1 e hch, fun s' t ω' h => by cases h⟩
+  | ok r =>
+    obtain ⟨i, c1, ω1⟩ := r
+    have hlt : i < s.opens.length := by simpa using choose_lt hch
+    have hod : s.opens[i]? = some s.opens[i] := List.getElem?_eq_getElem hlt
+    have hin : InR R s.opens[i].d := hs _ (List.getElem_mem hlt)
+    obtain ⟨hcne, hcall⟩ := InR_CapOK hc hm hin
+    dsimp only
+    rw [getD_opens hlt]
+    have h2 := choose_progress (o.endBonds.map Prod3.d) (some s.opens[i].d) ω1 hcne (fun c hcm => (hcall c hcm).1)
+    cases hch2 : choose (o.endBonds.map Prod3.d) (some s.opens[i].d) ω1 with
+    | error e => exact ⟨fun e' he' => by injection he' with he'; subst he'; exact h2 e hch2, fun s' t ω' h => by cases h⟩
+    | ok r2 =>
+      obtain ⟨c, c2, ω2⟩ := r2
+      have hcm := choose_mem hch2
+      obtain ⟨-, hent⟩ := hcall c hcm
+      obtain ⟨hclt, hcomp⟩ := (C03_filter _ _ _).1 hcm
+      dsimp only
+      cases he : o.endBonds[c]? with
+      | none => simp [he] at hent
+      | some p =>
+        obtain ⟨tok, k, d⟩ := p
+        simp only [he] at hent
+        obtain ⟨hg, hbd, hlen⟩ := hent
+        have hd : (o.endBonds.map Prod3.d)[c] = d := by
+          have : (o.endBonds.map Prod3.d)[c]? = some d := by simp [he]
+          exact Option.some.inj (by rw [← this, List.getElem?_eq_getElem hclt])
+        simp only at hcomp
+        rw [hd] at hcomp
+        obtain ⟨s', hatt, hopens⟩ := attach_succeeds (s := s) hg hod hbd (by rw [C03_symm]; exact hcomp)
+        simp only [hatt]
+        refine ⟨(fun e' he' => nomatch he'), ?_⟩
+        intro s'' t ω' hok
+        injection hok with hok
+        simp only [Prod.mk.injEq] at hok
+        obtain ⟨rfl, -, -⟩ := hok
+        have hk : k = 0 := by
+          have := (List.getElem?_eq_some_iff.1 hbd).1
+          omega
+        have hfresh : (tok.opens s.natoms s.insts.length s.insts.length).eraseIdx k = [] := by
+          rw [List.eraseIdx_eq_nil_iff]
+          right
+          exact ⟨by rw [Token.opens_length]; exact hlen, hk⟩
+        rw [hfresh, List.append_nil] at hopens
+        constructor
+        · intro od hod'
+          rw [hopens] at hod'
+          exact hs od (mem_of_mem_eraseIdx hod')
+        · rw [hopens, List.length_eraseIdx]
+          simp only [hlt, if_true]
+          omega
+
+/-- **capping cannot raise** -/
+theorem capAll_progress {o : Stoch} {m : Mode} {R : List Desc} (hc : Cert o m R) (hm : m.chain = false) (f : Nat) {s : Mol} (hs : OpensIn R s) (ω : Oracle) :
+    OkOrBenign (capAll o f s ω) := by
+  induction f generalizing s ω with
+  | zero =>
+    intro e h
+    unfold capAll at h
+    split at h
+    · cases h
+    · injection h with h; subst h; exact Or.inr (Or.inr rfl)
+  | succ f ih =>
+    intro e h
+    unfold capAll at h
+    split at h
+    · cases h
+    · rename_i hne
+      have hne' : s.opens ≠ [] := by simpa using hne
+      obtain ⟨hb, hpres⟩ := capOne_progress hc hm hs hne' ω
+      cases hco : capOne o s ω with
+      | error e1 =>
+        simp only [hco] at h
+        injection h with h; subst h
+        exact hb e1 hco
+      | ok r =>
+        obtain ⟨s1, t1, ω1⟩ := r
+        simp only [hco] at h
+        obtain ⟨hs1, -⟩ := hpres s1 t1 ω1 hco
+        cases hrec : capAll o f s1 ω1 with
+        | error e2 =>
+          simp only [hrec] at h
+          injection h with h; subst h
+          exact ih hs1 ω1 e2 hrec
+        | ok r2 =>
+          obtain ⟨s2, t2, ω2⟩ := r2
+          simp only [hrec] at h
+          cases h
+
+
+theorem capAll_ok_empty {o : Stoch} (f : Nat) {s s' : Mol} {ω ω' : Oracle} {t : Trace} (h : capAll o f s ω = .ok (s', t, ω')) :
+    s'.opens = [] := by
+  induction f generalizing s ω t s' ω' with
+  | zero =>
+    unfold capAll at h
+    split at h
+    · rename_i he; ok_inj h; obtain ⟨rfl, -, -⟩ := h; simpa using he
+    · cases h
+  | succ f ih =>
+    unfold capAll at h
+    split at h
+    · rename_i he; ok_inj h; obtain ⟨rfl, -, -⟩ := h; simpa using he
+    · split at h
+      · cases h
+      · split at h
+        · cases h
+        · rename_i s2 t2 ω2 hrec
+          ok_inj h; obtain ⟨rfl, -, -⟩ := h
+          exact ih hrec
+
+theorem chooseList_progress (l : List Rat) (w : Rat) (ω : Oracle) (hne : l ≠ []) (hok : probsOk (l.map (· / w)) w = true) :
+    OkOrBenign (chooseList l w ω) := by
+  intro e h
+  unfold chooseList at h
+  simp only at h
+  have h1 : l.isEmpty = false := by simpa using hne
+  simp only [h1, Bool.false_eq_true, if_false, hok, Bool.not_true] at h
+  exact pickFrom_benign _ _ _ e h
+
+/-- **one growth step cannot raise** and leaves only descriptors of `R` open -/
+theorem addUnit_progress {o : Stoch} {m : Mode} {R : List Desc} (hc : Cert o m R) {s : Mol} (hs : OpensIn R s) (hne : s.opens ≠ []) (ω : Oracle) :
+    OkOrBenign (addUnit o s ω) ∧ ∀ s' t ω', addUnit o s ω = .ok (s', t, ω') →
+      OpensIn R s' ∧ (m.chain = true → s.opens.length = 1 → s'.opens.length = 1) ∧
+      (∀ r, m.inv = some r → ∃ od ∈ s'.opens, isCompatible r od.d = true) := by
+  have h1 := chooseOpen_progress hc hs hne ω
+  unfold addUnit
+  cases hch : choose (s.opens.map (·.d)) none ω with
+  | error e => exact ⟨fun e' he' => by injection he' with he'; subst he'; exact h1 e hch, fun s' t ω' h => by cases h⟩
+  | ok r =>
+    obtain ⟨i, c1, ω1⟩ := r
+    have hlt : i < s.opens.length := by simpa using choose_lt hch
+    have hod : s.opens[i]? = some s.opens[i] := List.getElem?_eq_getElem hlt
+    have hin : InR R s.opens[i].d := hs _ (List.getElem_mem hlt)
+    have hgrow := InR_GrowOK hc hin
+    dsimp only
+    rw [getD_opens hlt]
+    -- the partner pick
+    have hpp : OkOrBenign (pickPartner o s.opens[i].d ω1) ∧
+        ∀ c c2 ω2, pickPartner o s.opens[i].d ω1 = .ok (c, c2, ω2) → EntryOK o m R s.opens[i].d c := by
+      unfold GrowOK at hgrow
+      unfold pickPartner
+      cases htr : s.opens[i].d.trans with
+      | none =>
+        simp only [htr] at hgrow ⊢
+        obtain ⟨g1, g2, g3⟩ := hgrow
+        exact ⟨choose_progress _ _ _ g1 g2, fun c c2 ω2 hok => g3 c (choose_mem hok)⟩
+      | some l =>
+        simp only [htr] at hgrow ⊢
+        obtain ⟨g1, g2, g3⟩ := hgrow
+        refine ⟨chooseList_progress l _ ω1 g1 g2, ?_⟩
+        intro c c2 ω2 hok
+        obtain ⟨-, -, -, hcl, -, hpos⟩ := C08_list_spec hok
+        exact g3 c (List.mem_range.2 hcl) hpos
+    obtain ⟨hpb, hpe⟩ := hpp
+    cases hpk : pickPartner o s.opens[i].d ω1 with
+    | error e => exact ⟨fun e' he' => by injection he' with he'; subst he'; exact hpb e hpk, fun s' t ω' h => by cases h⟩
+    | ok r2 =>
+      obtain ⟨c, c2, ω2⟩ := r2
+      have hent := hpe c c2 ω2 hpk
+      unfold EntryOK at hent
+      dsimp only
+      cases he : o.entry c with
+      | none => simp [he] at hent
+      | some p =>
+        obtain ⟨tok, k, d⟩ := p
+        simp only [he] at hent
+        obtain ⟨hg, hbd, hcomp, hsib, hleave⟩ := hent
+        obtain ⟨s', hatt, hopens⟩ := attach_succeeds (s := s) hg hod hbd hcomp
+        simp only [hatt]
+        refine ⟨(fun e' he' => nomatch he'), ?_⟩
+        intro s'' t ω' hok
+        injection hok with hok
+        simp only [Prod.mk.injEq] at hok
+        obtain ⟨rfl, -, -⟩ := hok
+        refine ⟨?_, ?_, ?_⟩
+        · intro od hod'
+          rw [hopens] at hod'
+          rcases List.mem_append.1 hod' with hm | hm
+          · exact hs od (mem_of_mem_eraseIdx hm)
+          · obtain ⟨d', hd', hdeq⟩ := fresh_erase_dEq tok _ _ _ k od hm
+            obtain ⟨y, hy, hye⟩ := hsib d' hd'
+            exact ⟨y, hy, ⟨hdeq.1.trans hye.1, hdeq.2.1.trans hye.2.1, hdeq.2.2.1.trans hye.2.2.1, hdeq.2.2.2.1.trans hye.2.2.2.1, hdeq.2.2.2.2.trans hye.2.2.2.2⟩⟩
+        · intro hch1 hlen1
+          have h2 := hleave.2 hch1
+          have hk : k < tok.bds.length := (List.getElem?_eq_some_iff.1 hbd).1
+          rw [hopens, List.length_append, List.length_eraseIdx, List.length_eraseIdx, Token.opens_length]
+          simp only [hlt, hk, if_true]
+          omega
+        · intro r hr
+          have h1' := hleave.1
+          simp only [hr] at h1'
+          obtain ⟨y, hy, hcy⟩ := h1'
+          obtain ⟨od, hod1, hdq⟩ := fresh_erase_dEq' tok s.natoms s.insts.length s.insts.length k y hy
+          refine ⟨od, ?_, ?_⟩
+          · rw [hopens]; exact List.mem_append_right _ hod1
+          · rw [isCompatible_dEq_right hdq]; exact hcy
+
+
+theorem capAll_nil {o : Stoch} (f : Nat) {s : Mol} (h : s.opens = []) (ω : Oracle) : capAll o f s ω = .ok (s, [], ω) := by
+  cases f <;> simp [capAll, h]
+
+/-- **`finalize_mol` cannot raise** -/
+theorem finalize_progress {o : Stoch} {m : Mode} {R : List Desc} (hc : Cert o m R) (hm : ModeOf o m) (f : Nat) {s : Mol}
+    (hs : OpensIn R s) (hch : m.chain = true → s.opens.length = 1)
+    (hr : ∀ r, m.inv = some r → ∃ od ∈ s.opens, isCompatible r od.d = true) (ω : Oracle) :
+    OkOrBenign (finalize o f s ω) ∧ ∀ fin t ω', finalize o f s ω = .ok (fin, t, ω') → Handed m R fin := by
+  unfold finalize
+  by_cases hright : o.right.sym = .none
+  · obtain ⟨hinv, hchain⟩ := hm.1 hright
+    simp only [hright, ne_eq, not_true_eq_false, if_false]
+    refine ⟨capAll_progress hc hchain f hs ω, ?_⟩
+    intro fin t ω' hok
+    exact ⟨fun _ => capAll_ok_empty f hok, fun rr hrr => by rw [hinv] at hrr; cases hrr⟩
+  · have hinv := hm.2 hright
+    simp only [hright, ne_eq, not_false_eq_true, if_true]
+    obtain ⟨od, hodm, hodc⟩ := hr _ hinv
+    have hne : compatibleIds (s.opens.map (·.d)) (some (invertTerminal o.right)) ≠ [] := by
+      obtain ⟨i, hi, hget⟩ := List.getElem_of_mem hodm
+      have : i ∈ compatibleIds (s.opens.map (·.d)) (some (invertTerminal o.right)) := by
+        rw [C03_filter]
+        refine ⟨by simpa using hi, ?_⟩
+        simp only [List.getElem_map, hget]
+        exact hodc
+      intro h0; rw [h0] at this; simp at this
+    have hpos : ∀ i ∈ compatibleIds (s.opens.map (·.d)) (some (invertTerminal o.right)), 0 ≤ ((s.opens.map OpenD.d).getD i default).weight := by
+      intro i hi
+      obtain ⟨hlt, -⟩ := (C03_filter _ _ _).1 hi
+      simp only [List.length_map] at hlt
+      rw [List.getD_eq_getElem?_getD, List.getElem?_map, List.getElem?_eq_getElem hlt]
+      simp only [Option.map_some, Option.getD_some]
+      exact InR_nonneg hc (hs _ (List.getElem_mem hlt))
+    have h1 := choose_progress _ _ ω hne hpos
+    cases hch1 : choose (s.opens.map (·.d)) (some (invertTerminal o.right)) ω with
+    | error e => exact ⟨fun e' he' => by injection he' with he'; subst he'; exact h1 e hch1, fun s' t ω' h => by cases h⟩
+    | ok r =>
+      obtain ⟨k, c, ω1⟩ := r
+      obtain ⟨hklt, hkc⟩ := (C03_filter _ _ _).1 (choose_mem hch1)
+      simp only [List.length_map] at hklt
+      simp only [List.getElem_map] at hkc
+      dsimp only
+      have hsub : OpensIn R { s with opens := s.opens.eraseIdx k } := fun od' h' => hs od' (mem_of_mem_eraseIdx h')
+      have hcap : OkOrBenign (capAll o f { s with opens := s.opens.eraseIdx k } ω1) := by
+        by_cases hchain : m.chain = true
+        · have hl := hch hchain
+          have : s.opens.eraseIdx k = [] := by
+            rw [List.eraseIdx_eq_nil_iff]; right; exact ⟨hl, by omega⟩
+          rw [capAll_nil f (by simpa using this)]
+          intro e he; cases he
+        · exact capAll_progress hc (by simpa using hchain) f hsub ω1
+      cases hca : capAll o f { s with opens := s.opens.eraseIdx k } ω1 with
+      | error e => exact ⟨fun e' he' => by injection he' with he'; subst he'; exact hcap e hca, fun s' t ω' h => by cases h⟩
+      | ok r2 =>
+        obtain ⟨s', t', ω2⟩ := r2
+        refine ⟨(fun e' he' => nomatch he'), ?_⟩
+        intro fin t ω' hok
+        injection hok with hok
+        simp only [Prod.mk.injEq] at hok
+        obtain ⟨rfl, -, -⟩ := hok
+        have hemp := capAll_ok_empty f hca
+        refine ⟨(fun hn => by rw [hinv] at hn; cases hn), ?_⟩
+        intro rr hrr
+        rw [hinv] at hrr
+        injection hrr with hrr
+        subst hrr
+        refine ⟨s.opens[k], ?_, hs _ (List.getElem_mem hklt), hkc⟩
+        simp only [hemp, List.nil_append, getD_opens hklt]
+
+
+/-- **the growth loop cannot raise**, and ends with nothing open or with exactly the descriptor for the right terminal -/
+theorem growLoop_progress {o : Stoch} {m : Mode} {R : List Desc} (hc : Cert o m R) (hm : ModeOf o m) (start target : Rat) :
+    ∀ (f n : Nat) (s : Mol) (ω : Oracle), OpensIn R s → s.opens ≠ [] → (m.chain = true → s.opens.length = 1) →
+      OkOrBenign (growLoop o start target f n s ω) ∧
+      ∀ r t ω', growLoop o start target f n s ω = .ok (r, t, ω') → Handed m R r := by
+  intro f
+  induction f with
+  | zero =>
+    intro n s ω _ _ _
+    refine ⟨?_, ?_⟩
+    · intro e h; simp only [growLoop] at h; injection h with h; subst h; exact Or.inr (Or.inr rfl)
+    · intro r t ω' h; simp [growLoop] at h
+  | succ f ih =>
+    intro n s ω hs hne hch
+    obtain ⟨hab, hap⟩ := addUnit_progress hc hs hne ω
+    unfold growLoop
+    cases hau : addUnit o s ω with
+    | error e => exact ⟨fun e' he' => by injection he' with he'; subst he'; exact hab e hau, fun r t ω' h => by cases h⟩
+    | ok r1 =>
+      obtain ⟨s1, t1, ω1⟩ := r1
+      obtain ⟨hs1, hch1, hr1⟩ := hap s1 t1 ω1 hau
+      dsimp only
+      by_cases hemp : s1.opens.isEmpty = true
+      · simp only [hemp, if_true]
+        refine ⟨(fun e' he' => nomatch he'), ?_⟩
+        intro r t ω' hok
+        injection hok with hok
+        simp only [Prod.mk.injEq] at hok
+        obtain ⟨rfl, -, -⟩ := hok
+        have he : s1.opens = [] := by simpa using hemp
+        refine ⟨fun _ => he, ?_⟩
+        intro rr hrr
+        obtain ⟨od, hod, -⟩ := hr1 rr hrr
+        rw [he] at hod; simp at hod
+      · simp only [hemp, Bool.false_eq_true, if_false]
+        have hne1 : s1.opens ≠ [] := by simpa using hemp
+        have hch1' : m.chain = true → s1.opens.length = 1 := fun h => hch1 h (hch h)
+        obtain ⟨hfb, hfp⟩ := finalize_progress hc hm (f + 1) hs1 hch1' hr1 ω1
+        cases hfin : finalize o (f + 1) s1 ω1 with
+        | error e => exact ⟨fun e' he' => by injection he' with he'; subst he'; exact hfb e hfin, fun r t ω' h => by cases h⟩
+        | ok r2 =>
+          obtain ⟨fin, t2, ω2⟩ := r2
+          have hh := hfp fin t2 ω2 hfin
+          dsimp only
+          by_cases hmass : s1.mass - start > target
+          · simp only [hmass, if_true]
+            refine ⟨(fun e' he' => nomatch he'), ?_⟩
+            intro r t ω' hok
+            injection hok with hok
+            simp only [Prod.mk.injEq] at hok
+            obtain ⟨rfl, -, -⟩ := hok
+            exact hh
+          · simp only [hmass, if_false]
+            obtain ⟨hib, hip⟩ := ih (n + 1) s1 ω2 hs1 hne1 hch1'
+            cases hrec : growLoop o start target f (n + 1) s1 ω2 with
+            | error e => exact ⟨fun e' he' => by injection he' with he'; subst he'; exact hib e hrec, fun r t ω' h => by cases h⟩
+            | ok r3 =>
+              obtain ⟨r, t3, ω3⟩ := r3
+              refine ⟨(fun e' he' => nomatch he'), ?_⟩
+              intro r' t ω' hok
+              injection hok with hok
+              simp only [Prod.mk.injEq] at hok
+              obtain ⟨rfl, -, -⟩ := hok
+              exact hip r t3 ω3 hrec
+
+
+/-! ## Starting an object and handing over between elements -/
+
+theorem same3_of_compatible {rr x : Desc} (h : isCompatible rr x = true) : Same3 x (handOf rr) := by
+  obtain ⟨h1, h2, h3, h4, h5⟩ := (C03_iff rr x).1 h
+  refine ⟨?_, h3.symm, h4.symm⟩
+  simp only [handOf]
+  cases hr : rr.sym <;> cases hx : x.sym <;> simp [conj, flipSym, hr, hx] at h5 h1 h2 ⊢
+
+/-- **`get_start` cannot raise** and yields a molecule with exactly one open descriptor, of `R` -/
+theorem getStart_progress {o : Stoch} {m : Mode} {R : List Desc} (hc : Cert o m R) {pre : Option Mol} {inc : Option Desc}
+    (hpre : PreOK pre inc) (hst : StartOK o R inc) (ω : Oracle) :
+    OkOrBenign (getStart o pre ω) ∧
+    ∀ s t ω', getStart o pre ω = .ok (s, t, ω') → OpensIn R s ∧ s.opens.length = 1 := by
+  unfold getStart
+  cases pre with
+  | none =>
+    cases inc with
+    | some h => exact hpre.elim
+    | none =>
+      obtain ⟨hleft, hne, hall⟩ := hst
+      simp only [hleft, ne_eq, not_true_eq_false, if_false]
+      have hids : compatibleIds (o.endBonds.map Prod3.d) none ≠ [] := by
+        intro h0
+        have : 0 ∈ compatibleIds (o.endBonds.map Prod3.d) none := by
+          rw [C03_filter]; exact ⟨by simpa using List.length_pos_iff.2 hne, trivial⟩
+        rw [h0] at this; simp at this
+      have hpos : ∀ i ∈ compatibleIds (o.endBonds.map Prod3.d) none, 0 ≤ ((o.endBonds.map Prod3.d).getD i default).weight := by
+        intro i hi
+        obtain ⟨hlt, -⟩ := (C03_filter _ _ _).1 hi
+        simp only [List.length_map] at hlt
+        rw [List.getD_eq_getElem?_getD, List.getElem?_map, List.getElem?_eq_getElem hlt]
+        simp only [Option.map_some, Option.getD_some]
+        exact (hall _ (List.getElem_mem hlt)).1
+      have h1 := choose_progress _ _ ω hids hpos
+      cases hch : choose (o.endBonds.map Prod3.d) none ω with
+      | error e => exact ⟨fun e' he' => by injection he' with he'; subst he'; exact h1 e hch, fun s t ω' h => by cases h⟩
+      | ok r =>
+        obtain ⟨c, ch, ω1⟩ := r
+        have hclt : c < o.endBonds.length := by simpa using choose_lt hch
+        dsimp only
+        rw [List.getElem?_eq_getElem hclt]
+        obtain ⟨-, hg, hlen, hin⟩ := hall _ (List.getElem_mem hclt)
+        generalize o.endBonds[c] = p at hg hlen hin
+        obtain ⟨tok, k, d⟩ := p
+        simp only at hg hlen hin ⊢
+        simp only [hlen, ne_eq, not_true_eq_false, if_false, newMol, hg, if_true]
+        refine ⟨(fun e' he' => nomatch he'), ?_⟩
+        intro s t ω' hok
+        injection hok with hok
+        simp only [Prod.mk.injEq] at hok
+        obtain ⟨rfl, -, -⟩ := hok
+        refine ⟨?_, by simp [Token.opens_length, hlen]⟩
+        intro od hod
+        simp only [Token.opens, List.mem_map] at hod
+        obtain ⟨⟨k', d'⟩, hm, rfl⟩ := hod
+        have hd' : d' ∈ tok.bds := by
+          have := (mem_withIdx tok.bds k' d').1 hm
+          exact List.mem_of_getElem? this
+        obtain ⟨y, hy, hye⟩ := hin d' hd'
+        exact ⟨y, hy, ⟨hye.1, hye.2.1, hye.2.2.1, hye.2.2.2.1, hye.2.2.2.2⟩⟩
+  | some p =>
+    cases inc with
+    | none => exact hpre.elim
+    | some h =>
+      obtain ⟨od, hop, hs3⟩ := hpre
+      obtain ⟨hsym, hid, hin⟩ := hst
+      simp only [hop]
+      have hcond : ¬ (od.d.sym ≠ o.left.sym ∨ od.d.id ≠ o.left.id) := by
+        rw [hs3.1, hs3.2.1, hsym, hid]; simp
+      simp only [hcond, if_false]
+      refine ⟨(fun e' he' => nomatch he'), ?_⟩
+      intro s t ω' hok
+      injection hok with hok
+      simp only [Prod.mk.injEq] at hok
+      obtain ⟨rfl, -, -⟩ := hok
+      refine ⟨?_, rfl⟩
+      intro od' hod'
+      simp only [List.mem_singleton] at hod'
+      subst hod'
+      obtain ⟨y, hy, hye⟩ := hin
+      exact ⟨y, hy, ⟨hs3.1.trans hye.1, hs3.2.1.trans hye.2.1, hs3.2.2.trans hye.2.2.1, hye.2.2.2.1, hye.2.2.2.2⟩⟩
+
+
+theorem handed_preOK {m : Mode} {R : List Desc} {r : Mol} (h : Handed m R r) :
+    (m.inv = none → r.opens = []) ∧ (m.inv ≠ none → PreOK (some r) (stochOut m)) := by
+  refine ⟨h.1, ?_⟩
+  intro hne
+  cases hi : m.inv with
+  | none => exact absurd hi hne
+  | some rr =>
+    obtain ⟨od, hop, -, hcomp⟩ := h.2 rr hi
+    simp only [stochOut, hi, Option.map_some]
+    exact ⟨od, hop, same3_of_compatible hcomp⟩
+
+theorem preOK_prefixOk {pre : Option Mol} {inc : Option Desc} (h : PreOK pre inc) : prefixOk pre = true := by
+  cases pre with
+  | none => rfl
+  | some p =>
+    cases inc with
+    | none => exact h.elim
+    | some hh => obtain ⟨od, hop, -⟩ := h; simp [prefixOk, hop]
+
+/-- **`Stochastic.generate` cannot raise** for a certified object -/
+theorem genStoch_progress {o : Stoch} {m : Mode} {R : List Desc} {inc : Option Desc} (hok : StochOK o m R inc)
+    (fuel : Nat) {pre : Option Mol} (hpre : PreOK pre inc) (ω : Oracle) :
+    OkOrBenign (genStoch o fuel pre ω) ∧ ∀ r t ω', genStoch o fuel pre ω = .ok (r, t, ω') → Handed m R r := by
+  obtain ⟨hgen, hmode, hcert, hstart⟩ := hok
+  unfold genStoch
+  simp only [hgen, Bool.not_true, Bool.false_eq_true, if_false, preOK_prefixOk hpre]
+  obtain ⟨hgb, hgp⟩ := getStart_progress hcert hpre hstart ω
+  cases hgs : getStart o pre ω with
+  | error e => exact ⟨fun e' he' => by injection he' with he'; subst he'; exact hgb e hgs, fun r t ω' h => by cases h⟩
+  | ok r0 =>
+    obtain ⟨s, t0, ω0⟩ := r0
+    obtain ⟨hs, hlen⟩ := hgp s t0 ω0 hgs
+    dsimp only
+    cases ω0 with
+    | nil => exact ⟨fun e' he' => by injection he' with he'; subst he'; exact Or.inr (Or.inl rfl), fun r t ω' h => by cases h⟩
+    | cons ev ω1 =>
+      cases ev with
+      | pick v => exact ⟨fun e' he' => by injection he' with he'; subst he'; exact Or.inl rfl, fun r t ω' h => by cases h⟩
+      | draw target =>
+        dsimp only
+        have hne : s.opens ≠ [] := by intro h0; rw [h0] at hlen; simp at hlen
+        obtain ⟨hlb, hlp⟩ := growLoop_progress hcert hmode s.mass target fuel 0 s ω1 hs hne (fun _ => hlen)
+        cases hgl : growLoop o s.mass target fuel 0 s ω1 with
+        | error e => exact ⟨fun e' he' => by injection he' with he'; subst he'; exact hlb e hgl, fun r t ω' h => by cases h⟩
+        | ok r1 =>
+          obtain ⟨r, t1, ω2⟩ := r1
+          refine ⟨(fun e' he' => nomatch he'), ?_⟩
+          intro r' t ω' hok'
+          injection hok' with hok'
+          simp only [Prod.mk.injEq] at hok'
+          obtain ⟨rfl, -, -⟩ := hok'
+          exact hlp r t1 ω2 hgl
+
+
+/-! ## Plain tokens and whole molecules -/
+
+theorem compatibleIdsFrom_same3 {x h : Desc} (hs : Same3 x h) (l : List Desc) (n : Nat) :
+    compatibleIdsFrom (some x) n l = compatibleIdsFrom (some h) n l := by
+  induction l generalizing n with
+  | nil => rfl
+  | cons a l ih =>
+    unfold compatibleIdsFrom
+    have : isCompatible x a = isCompatible h a := by
+      rw [C03_symm x a, C03_symm h a]
+      exact isCompatible_congr_right a x h hs.1 hs.2.1 hs.2.2
+    simp only [this, ih]
+
+theorem token_weight_nonneg {t : Token} (hg : t.generable = true) {d : Desc} (hd : d ∈ t.bds) : 0 ≤ d.weight := by
+  unfold Token.generable at hg
+  have := List.all_eq_true.1 hg d hd
+  simpa [Desc.generable] using this
+
+theorem head?_of_length_le_one {α} {l : List α} (h : l.length ≤ 1) : l = [] ∧ l.head? = none ∨ ∃ a, l = [a] ∧ l.head? = some a := by
+  match l, h with
+  | [], _ => exact Or.inl ⟨rfl, rfl⟩
+  | [a], _ => exact Or.inr ⟨a, rfl, rfl⟩
+
+/-- **`SmilesToken.generate` cannot raise** for a fitting token -/
+theorem genToken_progress {t : Token} {inc : Option Desc} (hok : TokOK t inc) {pre : Option Mol} (hpre : PreOK pre inc) (ω : Oracle) :
+    OkOrBenign (genToken t pre ω) ∧ ∀ r tr ω', genToken t pre ω = .ok (r, tr, ω') → OutOK r (tokOut t inc) := by
+  unfold genToken
+  cases pre with
+  | none =>
+    cases inc with
+    | some h => exact hpre.elim
+    | none =>
+      obtain ⟨hg, hlen⟩ := hok
+      simp only [hg, Bool.not_true, Bool.false_eq_true, if_false, newMol, if_true]
+      refine ⟨(fun e' he' => nomatch he'), ?_⟩
+      intro r tr ω' hok'
+      injection hok' with hok'
+      simp only [Prod.mk.injEq] at hok'
+      obtain ⟨rfl, -, -⟩ := hok'
+      simp only [tokOut]
+      rcases head?_of_length_le_one hlen with ⟨hnil, hh⟩ | ⟨a, ha, hh⟩
+      · rw [hh]; simp [OutOK, Token.opens, withIdx, hnil]
+      · rw [hh]
+        simp only [OutOK, PreOK]
+        refine ⟨{ d := { a with atom := a.atom + 0 }, node := 0, inst := 0, k := 0 }, ?_, ⟨rfl, rfl, rfl⟩⟩
+        simp [Token.opens, withIdx, ha]
+  | some p =>
+    cases inc with
+    | none => exact hpre.elim
+    | some h =>
+      obtain ⟨od, hop, hs3⟩ := hpre
+      obtain ⟨hg, j, -, hids, hrest⟩ := hok
+      simp only [hg, Bool.not_true, Bool.false_eq_true, if_false, hop]
+      have hids' : compatibleIds t.bds (some od.d) = [j] := by
+        unfold compatibleIds; rw [compatibleIdsFrom_same3 hs3]; exact hids
+      have hjm : j ∈ compatibleIds t.bds (some od.d) := by rw [hids']; simp
+      obtain ⟨hjlt, hjc⟩ := (C03_filter _ _ _).1 hjm
+      have h1 := choose_progress t.bds (some od.d) ω (by rw [hids']; simp)
+        (fun i hi => by
+          obtain ⟨hlt, -⟩ := (C03_filter _ _ _).1 hi
+          rw [List.getD_eq_getElem?_getD, List.getElem?_eq_getElem hlt]
+          exact token_weight_nonneg hg (List.getElem_mem hlt))
+      cases hch : choose t.bds (some od.d) ω with
+      | error e => exact ⟨fun e' he' => by injection he' with he'; subst he'; exact h1 e hch, fun r tr ω' h => by cases h⟩
+      | ok r0 =>
+        obtain ⟨j', c, ω1⟩ := r0
+        have hj' : j' = j := by
+          have := choose_mem hch
+          rw [hids'] at this
+          simpa using this
+        subst hj'
+        dsimp only
+        have hpo : p.opens[0]? = some od := by simp [hop]
+        obtain ⟨s', hatt, hopens⟩ := attach_succeeds (s := p) hg hpo (List.getElem?_eq_getElem hjlt)
+          (by rw [C03_symm]; exact hjc)
+        simp only [hatt]
+        refine ⟨(fun e' he' => nomatch he'), ?_⟩
+        intro r tr ω' hok'
+        injection hok' with hok'
+        simp only [Prod.mk.injEq] at hok'
+        obtain ⟨rfl, -, -⟩ := hok'
+        simp only [tokOut, hids]
+        rw [hop] at hopens
+        simp only [List.eraseIdx_cons_zero, List.nil_append] at hopens
+        rcases head?_of_length_le_one hrest with ⟨hnil, hh⟩ | ⟨a, ha, hh⟩
+        · rw [hh]
+          simp only [OutOK]
+          rw [hopens]
+          have hl : ((t.opens p.natoms p.insts.length p.insts.length).eraseIdx j').length = 0 := by
+            rw [List.length_eraseIdx, Token.opens_length]
+            have := congrArg List.length hnil
+            rw [List.length_eraseIdx] at this
+            simpa using this
+          exact List.length_eq_zero_iff.1 hl
+        · rw [hh]
+          simp only [OutOK, PreOK]
+          have hl : ((t.opens p.natoms p.insts.length p.insts.length).eraseIdx j').length = 1 := by
+            rw [List.length_eraseIdx, Token.opens_length]
+            have := congrArg List.length ha
+            rw [List.length_eraseIdx] at this
+            simpa using this
+          obtain ⟨od1, hod1⟩ := List.length_eq_one_iff.1 hl
+          refine ⟨od1, by rw [hopens, hod1], ?_⟩
+          obtain ⟨d1, hd1, hdq⟩ := fresh_erase_dEq t _ _ _ j' od1 (by rw [hod1]; simp)
+          rw [ha] at hd1
+          simp only [List.mem_singleton] at hd1
+          subst hd1
+          exact ⟨hdq.1, hdq.2.1, hdq.2.2.1⟩
+
+
+theorem genElement_progress (fuel : Nat) {e : Element} {c : ElemCert} {inc : Option Desc} (hok : ElemOK e c inc)
+    {pre : Option Mol} (hpre : PreOK pre inc) (ω : Oracle) :
+    OkOrBenign (genElement fuel e pre ω) ∧ ∀ r t ω', genElement fuel e pre ω = .ok (r, t, ω') → OutOK r (elemOut e c inc) := by
+  cases e with
+  | tok t => exact genToken_progress hok hpre ω
+  | stoch o =>
+    obtain ⟨hb, hp⟩ := genStoch_progress (o := o) hok fuel hpre ω
+    refine ⟨hb, ?_⟩
+    intro r t ω' h
+    have hh := hp r t ω' h
+    obtain ⟨h1, h2⟩ := handed_preOK hh
+    simp only [elemOut, stochOut]
+    cases hi : c.1.inv with
+    | none => simpa [OutOK] using h1 hi
+    | some rr =>
+      have := h2 (by rw [hi]; simp)
+      simpa [OutOK, stochOut, hi] using this
+
+theorem genElems_progress (fuel : Nat) :
+    ∀ (es : List Element) (cs : List ElemCert) (pre : Option Mol) (inc : Option Desc) (ω : Oracle),
+      PreOK pre inc → ElemsOK es cs inc →
+      OkOrBenign (genElems fuel es pre ω) ∧
+      ∀ r t ω', genElems fuel es pre ω = .ok (r, t, ω') → es ≠ [] → ∃ m, r = some m ∧ m.opens = [] := by
+  intro es
+  induction es with
+  | nil =>
+    intro cs pre inc ω _ _
+    exact ⟨fun e h => by simp [genElems] at h, fun r t ω' _ hne => absurd rfl hne⟩
+  | cons e es ih =>
+    intro cs pre inc ω hpre hok
+    cases cs with
+    | nil => exact hok.elim
+    | cons c cs =>
+      obtain ⟨he, hmid, hrest⟩ := hok
+      obtain ⟨hb, hp⟩ := genElement_progress fuel he hpre ω
+      unfold genElems
+      cases hge : genElement fuel e pre ω with
+      | error e1 => exact ⟨fun e' he' => by injection he' with he'; subst he'; exact hb e1 hge, fun r t ω' h => by cases h⟩
+      | ok r1 =>
+        obtain ⟨m', t1, ω1⟩ := r1
+        have hout := hp m' t1 ω1 hge
+        dsimp only
+        cases es with
+        | nil =>
+          simp only [genElems]
+          refine ⟨(fun e' he' => nomatch he'), ?_⟩
+          intro r t ω' hok' _
+          injection hok' with hok'
+          simp only [Prod.mk.injEq] at hok'
+          obtain ⟨rfl, -, -⟩ := hok'
+          have hnone : elemOut e c inc = none := hrest
+          rw [hnone] at hout
+          exact ⟨m', rfl, hout⟩
+        | cons e2 es2 =>
+          have hsome := hmid (by simp)
+          cases ho : elemOut e c inc with
+          | none => exact absurd ho hsome
+          | some d =>
+            rw [ho] at hout hrest
+            obtain ⟨hib, hip⟩ := ih cs (some m') (some d) ω1 hout hrest
+            cases hrec : genElems fuel (e2 :: es2) (some m') ω1 with
+            | error e3 => exact ⟨fun e' he' => by injection he' with he'; subst he'; exact hib e3 hrec, fun r t ω' h => by cases h⟩
+            | ok r3 =>
+              obtain ⟨r, t2, ω2⟩ := r3
+              refine ⟨(fun e' he' => nomatch he'), ?_⟩
+              intro r' t ω' hok' _
+              injection hok' with hok'
+              simp only [Prod.mk.injEq] at hok'
+              obtain ⟨rfl, -, -⟩ := hok'
+              exact hip r t2 ω2 hrec (by simp)
+
+/-- **C06 (soundness of the certificate)**: a molecule description with a certificate generates, for every fuel and every
+oracle, without any error of the implementation's kind, and every successful run is fully generated (no open descriptor) -/
+theorem certified_generates (es : List Element) (cs : List ElemCert) (hne : es ≠ []) (hok : ElemsOK es cs none)
+    (fuel : Nat) (ω : Oracle) :
+    OkOrBenign (genMol fuel es ω) ∧
+    ∀ r t ω', genMol fuel es ω = .ok (r, t, ω') → ∃ m, r = some m ∧ m.opens = [] := by
+  obtain ⟨hb, hp⟩ := genElems_progress fuel es cs none none ω trivial hok
+  exact ⟨hb, fun r t ω' h => hp r t ω' h hne⟩
 
 end GBS
